@@ -24,6 +24,13 @@
     previous hop's address, its IP with another port, or a foreign IP (SignedMessage, variable `seen`), before and
     after data from each source; the opener rule is judged against the node the circuit was really built through
     (deviation HopFollowsPeer).
+    Packet history: every packet is logged with its relation to the packets the same socket judged before (`rel`);
+    scenario family "kin" and the random traces feed a socket packets that share with an earlier one everything but the
+    bytes one classifier rule reads (same first 22 bytes and length with another last byte / another remainder, cut or
+    extended across the length thresholds, one head byte changed, the identical packet after a reconfiguration), before
+    and after it, outbound and inbound; ExitPolicy.tla carries `judged` (every packet put through the filter, with
+    the classes and verdict it got) and gives it no influence (invariant VerdictByOwnShape; deviation VerdictMemo = the
+    classes / the verdict of an earlier packet with the same key are re-used: negative controls).
 """
 from __future__ import annotations
 
@@ -445,6 +452,60 @@ def dk_of_addr(addr, fam):
     return fam
 
 
+def relation(pkt, earlier):
+    """What pkt shares with an earlier packet of the bytes a classifier may read ('' = nothing worth a name)."""
+    if pkt == earlier:
+        return "same"
+    a, b = view_of(pkt), view_of(earlier)
+    if a == b:
+        return "twin"                                   # they differ only in bytes no rule reads
+    m = min(22, a["n"] - 1)
+    if a["n"] == b["n"] and a["h"][:m] == b["h"][:m]:
+        return "tail"                                   # same first 22 bytes and length, another last byte
+    common = min(len(a["h"]), len(b["h"]))
+    if a["n"] != b["n"] and common >= 2 and a["h"][:common] == b["h"][:common]:
+        return "len"                                    # one is the other cut / extended
+    if a["n"] == b["n"] and a["z"] == b["z"] and sum(x != y for x, y in zip(a["h"], b["h"])) == 1:
+        return "head"                                   # one byte of the head differs
+    return ""
+
+
+def kinship(pkt, passed, fed):
+    """'<relation> of passed|refused': the closest earlier packet, one with the other outcome preferred."""
+    best = None
+    for old, old_passed in fed:
+        rel = relation(pkt, old)
+        if rel:
+            rank = (old_passed != passed, -["same", "twin", "tail", "len", "head"].index(rel))
+            if best is None or rank > best[0]:
+                best = (rank, "%s of %s" % (rel, "passed" if old_passed else "refused"))
+    return best[1] if best else "fresh"
+
+
+def kin(pkt, rng):
+    """Packets that share with pkt everything but the bytes one classifier rule reads."""
+    n, res = len(pkt), []
+
+    def put(q):
+        if q != pkt and all(q != x for x in res):
+            res.append(q)
+    if n:
+        put(pkt[:-1] + (b"\x00" if pkt[-1:] == b"e" else b"e"))         # another last byte
+        put(pkt[:-1] + bytes([pkt[-1] ^ 0x5a]))
+    if n > 23:
+        put(pkt[:22] + rng.randbytes(n - 23) + pkt[-1:])                # twin: another remainder
+        put(pkt[:22] + rng.randbytes(n - 23) + bytes([pkt[-1] ^ 0x81]))
+    for cut in (7, 8, 11, 12, 19, 20, 22, 23, n - 1):                   # across the length thresholds
+        if 0 < cut < n:
+            put(pkt[:cut])
+    put(pkt + b"\x00")
+    put(pkt + b"e")
+    for i in (0, 1, 3, 11, 21):                                         # one byte of the head
+        if i < n:
+            put(pkt[:i] + bytes([pkt[i] ^ 0x84]) + pkt[i + 1:])
+    return res
+
+
 class TraceRun:
     """One exit socket lifetime: applies events to the real network and logs what the specification talks about."""
 
@@ -469,6 +530,8 @@ class TraceRun:
         self.qcap = self.sock.queue.maxlen
         # what this socket did with which outside address (chooses inputs, labels situations; the verdict is TLC's)
         self.h_asked, self.h_sent, self.h_heard = [], [], []
+        # the packets the socket's filter was handed so far and whether they passed (chooses inputs, labels situations)
+        self.fed = []
 
     # -- projection of the real exit socket onto the specification's variables
     def state(self):
@@ -507,7 +570,7 @@ class TraceRun:
         if ev["st"] == "closed":
             self.pend_epochs = []
         for k, dflt in (("src", "prev"), ("dk", "v4"), ("p", EMPTY_VIEW), ("i", 0), ("fam", "v4"), ("a", NO_ADDR),
-                        ("rip", ""), ("sit", ""), ("fl", []), ("kind", ""), ("seen", ""), ("wait", "")):
+                        ("rip", ""), ("sit", ""), ("fl", []), ("kind", ""), ("seen", ""), ("wait", ""), ("rel", "")):
             ev.setdefault(k, dflt)
         self.events.append(ev)
         return ev
@@ -532,6 +595,7 @@ class TraceRun:
         net.rewrite = None if src == "prev" else net.source_address(self.prev, src)
         c = self.circuit
         np0 = len(net.outside.pending_dns())
+        q0 = [d for d, _ in self.sock.queue]
         net.do(net.a.overlay.send_data, c.hop.address, c.circuit_id, dest, NULL, pkt)
         net.rewrite = None
         self.packets.append(pkt)
@@ -540,8 +604,20 @@ class TraceRun:
         sit = self.situation(dest)
         if dk in ("v4", "v6"):
             self.h_asked.append((str(dest[0]), int(dest[1])))
-        return self.observe({"k": "data", "src": src, "dk": dk, "p": view_of(pkt), "dest": list(dest),
-                             "a": addr_rec(dest), "sit": sit, "seen": self.seen}, n_sent, n_back)
+        ev = self.observe({"k": "data", "src": src, "dk": dk, "p": view_of(pkt), "dest": list(dest),
+                           "a": addr_rec(dest), "sit": sit, "seen": self.seen}, n_sent, n_back)
+        if ev["st"] in ("enabling0", "enabling4", "ready") and dk != "null":
+            # the packet reached the socket's filter: did it pass (left, waits for the transports, waits for its name)?
+            passed = bool(ev["emit"]) or len(net.outside.pending_dns()) > np0 or \
+                [d for d, _ in self.sock.queue] != q0
+            self.judge(ev, pkt, passed)
+        return ev
+
+    def judge(self, ev, pkt, passed):
+        """Label the event with the relation of its packet to the packets this socket judged before."""
+        ev["rel"] = kinship(pkt, passed, self.fed)
+        ev["pass"] = bool(passed)
+        self.fed.append((pkt, passed))
 
     def set_flags(self, fs):
         """settings.peer_flags of the exit node is rewritten while the socket lives."""
@@ -637,8 +713,12 @@ class TraceRun:
             raise MachineryError("driver delivers a datagram from %r on the %s socket" % (source, fam))
         sit = self.situation(source)
         self.net.do(proto.datagram_received, pkt, source if fam == "v4" else source + (0, 0))
-        return self.observe({"k": "out", "fam": fam, "p": view_of(pkt), "a": addr_rec(source), "from": list(source),
-                             "sit": sit}, n_sent, n_back)
+        self.packets.append(pkt)
+        ev = self.observe({"k": "out", "fam": fam, "p": view_of(pkt), "a": addr_rec(source), "from": list(source),
+                           "sit": sit}, n_sent, n_back)
+        if fam != "v6mapped":
+            self.judge(ev, pkt, bool(ev["tun"]))
+        return ev
 
     def known_hosts(self, fam):
         """Outside addresses of one family this socket had to do with, most significant history first."""
@@ -734,6 +814,14 @@ class PacketGen:
 
     def any(self):
         return self.make(self.rng.choice(self.classes))
+
+    def make_long(self, cls, n):
+        """A packet of the class with at least n bytes if the class has such members (bytes >= 22 count as 'the rest')."""
+        for _ in range(40):
+            p = self.make(cls)
+            if len(p) >= n:
+                break
+        return p
 
 
 def scripted_trace(net, gen, hops, variant):
@@ -947,9 +1035,74 @@ def reconf_trace(net, gen, rng, hops):
     return t.finish(), marks
 
 
+KIN_CLASSES = ["dht", "utp", "tracker0", "tracker8", "ipv8", "own", "both", "junk"]
+
+
+def kin_trace(net, gen, rng, hops, full):
+    """Packet history, then a packet that shares most of itself with an earlier one.  For a packet of every class the
+    socket is fed one of its kin (kin()), the packet itself, every kin - outbound and from outside, IPv4 and IPv6 -
+    and the packet again; then identical packets are repeated across reconfigurations of the node."""
+    t = TraceRun(net, hops)
+    target = tuple(net.flagset)
+    x4, x6 = ("93.184.216.34", 6881), ("2001:db8::1", 6881)
+    t.data("prev", "v4", x4, gen.make("own"))              # opens the socket
+    t.transport_ready()                                    # IPv4 up: IPv4 data leaves at once, datagrams arrive
+    classes = list(KIN_CLASSES)
+    rng.shuffle(classes)
+
+    def from_outside(i, pkt):
+        if i % 4 == 3 and t.can_out("v6"):
+            t.outside_datagram("v6", pkt, x6)
+        else:
+            t.outside_datagram("v4", pkt, x4)
+    for ci, cls in enumerate(classes):
+        if ci == 2:
+            t.transport_ready()                            # ready
+        base = gen.make_long(cls, 24)
+        ks = kin(base, rng)
+        if not full:
+            # the two with another last byte, one with another remainder, a sample of the cut / extended / altered ones
+            ks = ks[:3] + rng.sample(ks[3:], min(4, len(ks) - 3))
+        t.data("prev", "v4", x4, ks[0])                    # a kin is judged before the packet ...
+        t.data("prev", "v4", x4, base)
+        for i, k in enumerate(ks):                         # ... and all of them after it
+            if i < 2 or i % 2 == 0:
+                t.data("prev", "v6" if i % 4 == 2 and t.state() == "ready" else "v4",
+                       x6 if i % 4 == 2 and t.state() == "ready" else x4, k)
+            if i < 2 or i % 2 == 1:
+                from_outside(i, k)
+        from_outside(0, base)
+        t.data("prev", "v4", x4, base)
+    # the identical packet under another configuration
+    for cls in ("utp", "ipv8", "dht") if full else rng.sample(("utp", "ipv8", "dht"), 2):
+        p = gen.make_long(cls, 24)
+        for fs in (ALL_FLAGS, target, (), ALL_FLAGS, target) if full else (ALL_FLAGS, target, (), ALL_FLAGS):
+            t.set_flags(fs)
+            t.data("prev", "v4", x4, p)
+            from_outside(0, p)
+        t.data("prev", "v4", x4, kin(p, rng)[0])
+    t.close()
+    return t.finish(), kin_marks(t.events)
+
+
+def kin_marks(events):
+    """Where a kin of a packet that passed was refused, outbound and inbound (for the negative controls)."""
+    marks = {}
+    for i, e in enumerate(events, 1):
+        if e.get("rel") == "tail of passed" and e["st"] == "ready" and not e["pass"]:
+            marks.setdefault("kin_out" if e["k"] == "data" else "kin_in", i)
+    return marks if len(marks) == 2 else None
+
+
 def random_trace(net, gen, rng, hops, length):
     t = TraceRun(net, hops)
     burst = rng.random() < 0.2
+
+    def packet(make):
+        if t.packets and rng.random() < 0.3:
+            # shares head / length / tail with a packet this socket was fed before
+            return rng.choice(kin(rng.choice(t.packets[-6:]), rng))
+        return make()
     for _ in range(length):
         kinds = t.enabled_kinds()
         weights = {"data": 6, "tr": 1 if burst else 3, "res": 3, "out": 4, "close": 0.25, "flags": 1.2,
@@ -962,7 +1115,7 @@ def random_trace(net, gen, rng, hops, length):
             dest = rng.choice(DESTS[dk])
             if dk in ("v4", "v6") and rng.random() < 0.3 and t.known_hosts(dk):
                 dest = rng.choice(t.known_hosts(dk))        # an address the socket already had to do with
-            t.data(src, dk, dest, gen.make(cls))
+            t.data(src, dk, dest, packet(lambda: gen.make(cls)))
         elif k == "tr":
             t.transport_ready()
         elif k == "flags":
@@ -982,14 +1135,15 @@ def random_trace(net, gen, rng, hops, length):
                 source = (a[0], a[1] % 65535 + 1)           # its IP, another port
             if source is not None and fam == "v6mapped":
                 source = ("::ffff:" + source[0], source[1])
-            t.outside_datagram(fam, gen.any() if rng.random() < 0.6 else gen.make(rng.choice(FLOW_CLASSES)), source)
+            t.outside_datagram(fam, packet(lambda: gen.any() if rng.random() < 0.6
+                                           else gen.make(rng.choice(FLOW_CLASSES))), source)
         else:
             t.close()
     return t.finish()
 
 
 EXACT_INV = ["TraceAccepted", "TypeOK", "EmitOnlyAllowed", "NeverToNull", "OpenedOnlyByPrevHop", "EmitOnlyWhenOpen",
-             "QueueClean"]
+             "QueueClean", "VerdictByOwnShape"]
 
 
 def write_cfg(tmp, name, spec, invariants, qcap):
@@ -1003,7 +1157,8 @@ def write_cfg(tmp, name, spec, invariants, qcap):
         f.write("SPECIFICATION %s\nCONSTANTS QCap = %d MaxPend = 100000 MaxOps = 1000000\n"
                 "          NoInboundFilter = FALSE NoNullCheck = FALSE AnyoneOpens = FALSE RepIds = {}\n"
                 "          TrackHistory = TRUE FlowCache = \"none\" HostIps = {} HostPorts = {} SrcSet = {} DkSet = {}\n"
-                "          StaleVerdict = \"none\" HopFollowsPeer = FALSE FlagChoices = {} SignedSrcs = {}\n" % (spec, qcap))
+                "          StaleVerdict = \"none\" HopFollowsPeer = FALSE VerdictMemo = \"none\" FlagChoices = {} SignedSrcs = {}\n"
+                % (spec, qcap))
         for inv in invariants:
             f.write("INVARIANT %s\n" % inv)
     return path
@@ -1058,6 +1213,10 @@ def validate(traces, qcap, mode):
     return False, r.violated, tid, l, r
 
 
+def reconfigured_at(tr, l):
+    return any(e["k"] == "flags" for e in tr["events"][:l])
+
+
 def describe_event(tr, l):
     if not isinstance(l, int) or not 1 <= l <= len(tr["events"]):
         return "?"
@@ -1071,6 +1230,7 @@ def corrupted(traces, marks):
     """Negative controls on the recorded material: [(name, corrupted trace)] - every one must be rejected by both
     validators."""
     (tour_idx, m), (flow_idx, fm), (rc_idx, rm) = marks["tour"], marks["flows"], marks["reconf"]
+    kin_idx, km = marks["kin"]
 
     def corrupt(idx, fn):
         t = json.loads(json.dumps(traces[idx]))
@@ -1102,6 +1262,17 @@ def corrupted(traces, marks):
         # ... and the other way round: a forbidden packet towards an address accepted datagrams came from
         e = ev[fm["forbidden_to_heard"] - 1]
         e["emit"] = [{"p": e["p"], "dk": "v4", "a": e["a"]}]
+
+    def c_kin_out(ev):
+        # the verdict on an earlier packet with the same first 22 bytes and length is re-used: a packet that is in no
+        # allowed class leaves because its kin did
+        e = ev[km["kin_out"] - 1]
+        e["emit"] = [{"p": e["p"], "dk": e["dk"], "a": e["a"]}]
+
+    def c_kin_in(ev):
+        e = ev[km["kin_in"] - 1]
+        e["tun"] = [{"p": e["p"], "fam": e["fam"], "dest_null": True, "a": e["a"]}]
+
     def c_stale_dns(ev):
         # the verdict taken before the name was resolved is kept although the node was reconfigured meanwhile
         ev[rm["stale_dns"] - 1]["emit"] = [rm["stale_dns_emit"]]
@@ -1114,7 +1285,11 @@ def corrupted(traces, marks):
         # data from the IP a signed message of the previous hop's key was replayed from opens the socket
         for e in ev[rm["other_after_replay"] - 1:rm["first_prev_data"] - 1]:
             e["st"] = "enabling0"
-    return [("trace in which a packet that waited for DNS leaves under flags that forbid it is rejected",
+    return [("trace in which a packet passes outbound because an earlier packet with the same head and length did is "
+             "rejected", corrupt(kin_idx, c_kin_out)),
+            ("trace in which a datagram from outside is tunnelled because an earlier packet with the same head and "
+             "length passed is rejected", corrupt(kin_idx, c_kin_in)),
+            ("trace in which a packet that waited for DNS leaves under flags that forbid it is rejected",
              corrupt(rc_idx, c_stale_dns)),
             ("trace in which the waiting queue is emitted unfiltered after a reconfiguration is rejected",
              corrupt(rc_idx, c_stale_queue)),
@@ -1163,6 +1338,11 @@ def trace_record(tier, rng):
                         tr, m = reconf_trace(net, gen, rng, hops)
                         marks.setdefault("reconf", (len(traces), m))
                         traces.append(tr)
+                    for hops in ((1, 2) if tier != "quick" else (1 + (k // 2) % 2,)):
+                        tr, m = kin_trace(net, gen, rng, hops, tier != "quick")
+                        if m:
+                            marks.setdefault("kin", (len(traces), m))
+                        traces.append(tr)
                     for i in range(n_random):
                         traces.append(random_trace(net, gen, rng, 1 + i % 2, rng.randrange(12, 45)))
                     received += net.received_by_origin
@@ -1173,6 +1353,11 @@ def trace_record(tier, rng):
         loop.close()
         import asyncio
         asyncio.set_event_loop(asyncio.new_event_loop())     # the enumeration builds TaskManagers (never run)
+    if "kin" not in marks:
+        # (an implementation that lets such a packet pass is a violation the validators report; the controls are
+        # then made on the last trace of the family, where they are meaningless but never judged)
+        marks["kin"] = (len(traces) - 1 - n_random, {"kin_out": 1, "kin_in": 1})
+        marks["kin_vacuous"] = True
     qcaps = {t["qcap"] for t in traces}
     if len(qcaps) != 1:
         raise MachineryError("exit sockets with different queue capacities")
@@ -1199,6 +1384,7 @@ def trace_judge(ctx, rec):
     kinds = {}
     history = {}
     reconf = {}
+    kinstat = {}
     for t in traces:
         before = "disabled"
         reconfigured = False
@@ -1222,6 +1408,12 @@ def trace_judge(ctx, rec):
                    bool(e["emit"]), bool(e["tun"]))
             kinds[key] = kinds.get(key, 0) + 1
             ctx.nontrivial(("ev", tuple(t["flags"]), key, tuple(e["p"]["h"][:2]), e["p"]["n"]))
+            if e.get("rel") and e["rel"] != "fresh":
+                kk = "%s, %s: %s" % ("datagram from outside" if e["k"] == "out" else "tunnel data", e["rel"],
+                                     "passed" if e["pass"] else "nothing passed")
+                kinstat[kk] = kinstat.get(kk, 0) + 1
+                ctx.nontrivial(("kin", tuple(t["flags"]), e["k"], e["rel"], e["pass"], tuple(e["p"]["h"][:2]),
+                                e["p"]["n"], e["p"]["z"]))
             if e["sit"] and e["sit"] != "fresh" and e["k"] in ("out", "data"):
                 hk = "%s %s %s: %s" % ("datagram from" if e["k"] == "out" else "data towards", e["sit"], e["st"],
                                        ("passed" if (e["tun"] or e["emit"]) else "nothing passed"))
@@ -1254,11 +1446,17 @@ def trace_judge(ctx, rec):
                 what = "opened-by-foreign-source"
                 if e.get("seen") == "other":
                     what = "opened-by-foreign-source-after-replayed-signed-message"
+            if what in ("inbound", "outbound", "inbound-from-known-address") and \
+                    e.get("rel", "").endswith(" of passed") and not reconfigured_at(tr, l_o):
+                # (on its own the packet is judged right - binding E; what differs here is what went before it)
+                what += "-kin-of-earlier-packet"
         ctx.violation("trace:%s" % what,
                       "the exit node's observed behaviour violates the exit policy property (%s): flags %s, event %s: %s"
                       "%s" % (what, tr and tr["flags"], l_o, tr and describe_event(tr, l_o),
-                              "; what the socket did with that outside address before: %s" % e["sit"]
-                              if e and e.get("sit") else ""),
+                              ("; what the socket did with that outside address before: %s" % e["sit"]
+                               if e and e.get("sit") else "") +
+                              ("; relation to the packets this socket judged before: %s" % e["rel"]
+                               if e and e.get("rel") else "")),
                       {"trace": tr, "event_index": l_o, "invariant": inv_o})
     elif not ok_e:
         tr = traces[tid_e - 1] if isinstance(tid_e, int) else None
@@ -1284,7 +1482,8 @@ def trace_judge(ctx, rec):
                         "distinct_event_situations": len(kinds), "exact_conformance": ok_e,
                         "model_divergence": divergence,
                         "input_from_or_towards_addresses_with_a_history": dict(sorted(history.items())),
-                        "reconfiguration_and_replayed_signed_messages": dict(sorted(reconf.items()))})
+                        "reconfiguration_and_replayed_signed_messages": dict(sorted(reconf.items())),
+                        "packets_sharing_head_length_or_tail_with_an_earlier_packet": dict(sorted(kinstat.items()))})
     if traces:
         ctx.sample({"recorded_events": traces[0]["events"][2:5], "flags": traces[0]["flags"]})
 
@@ -1306,7 +1505,18 @@ def trace_judge(ctx, rec):
                              "stayed disabled",
                              "first data from prev after a signed message of the previous hop's key from other: opened")
                  if not reconf.get(k)]
-        if need:
+        need += [k for k in ("tunnel data, tail of passed: nothing passed", "tunnel data, tail of refused: passed",
+                             "datagram from outside, tail of passed: nothing passed",
+                             "datagram from outside, tail of refused: passed",
+                             "tunnel data, len of passed: nothing passed", "tunnel data, head of passed: nothing passed",
+                             "datagram from outside, len of passed: nothing passed",
+                             "datagram from outside, head of passed: nothing passed",
+                             "tunnel data, twin of passed: passed", "datagram from outside, twin of passed: passed",
+                             "tunnel data, same of passed: nothing passed",
+                             "datagram from outside, same of passed: nothing passed",
+                             "tunnel data, same of refused: passed")
+                 if not kinstat.get(k)]
+        if need or rec["marks"].get("kin_vacuous"):
             raise MachineryError("trace binding is vacuous for the history part: never observed %s" % need)
         for i, (name, _) in enumerate(rec["controls"]):
             ctx.control(name, (i + 1) in rej_o and (i + 1) in rej_e)
@@ -1392,7 +1602,8 @@ def run(tier, seed, replay=None):
                        "to send to, resolved or accepted datagrams from (history model ExitPolicy_hist_*.cfg), "
                        "run-time reconfiguration of the flags while packets wait for DNS / transports, and validly "
                        "signed messages of the previous hop's key delivered from other addresses before the first "
-                       "data (model ExitPolicy_reconf_*.cfg). "
+                       "data (model ExitPolicy_reconf_*.cfg), and packets sharing head / length / last byte with packets "
+                       "the same socket judged before, outbound and inbound (model ExitPolicy_memo_*.cfg). "
                        "non-trivial = enumerated packets falling in some class + distinct (flags, event kind, source, "
                        "destination kind, socket state, outcome, packet head) situations of the traces + distinct "
                        "(flags, direction, history of the address, socket state, packet head) situations")
@@ -1407,7 +1618,9 @@ def run(tier, seed, replay=None):
                         "to the outside transport / sent back into the tunnel (settings.peer_flags is writable at run "
                         "time); a packet accepted earlier that is still waiting is judged again",
                         "'the circuit's own previous hop' is the address the circuit was created from; it does not "
-                        "move when signed messages of that node's key show up from elsewhere"]
+                        "move when signed messages of that node's key show up from elsewhere",
+                        "every packet is classified by its own bytes: what the socket concluded about earlier packets "
+                        "(however similar) has no bearing on the verdict"]
     rng = random.Random(seed)
     random.seed(seed)
     with ThreadPoolExecutor(max_workers=5) as ex:
@@ -1445,10 +1658,14 @@ def model_part_safe(tier):
         # previous hop's key was last seen at
         ctl += [("ExitPolicy_ctl_stale_dns.cfg", "EmitOnlyAllowed"), ("ExitPolicy_ctl_stale_queue.cfg", "EmitOnlyAllowed"),
                 ("ExitPolicy_ctl_hopfollows.cfg", "OpenedOnlyByPrevHop")]
+        # the classes / the verdict of an earlier packet with the same key are re-used
+        ctl += [("ExitPolicy_ctl_memo_head_len.cfg", "EmitOnlyAllowed"), ("ExitPolicy_ctl_memo_first2.cfg", "VerdictByOwnShape"),
+                ("ExitPolicy_ctl_memo_packet.cfg", "EmitOnlyAllowed")]
         mods = ([("model", "ExitPolicy_quick.cfg"), ("model_history", "ExitPolicy_hist_quick.cfg"),
-                 ("model_reconf", "ExitPolicy_reconf_quick.cfg")] if quick else
+                 ("model_reconf", "ExitPolicy_reconf_quick.cfg"), ("model_memo", "ExitPolicy_memo_quick.cfg")] if quick else
                 [("model_all_classes", "ExitPolicy_thorough.cfg"), ("model_deep", "ExitPolicy_deep.cfg"),
-                 ("model_history", "ExitPolicy_hist_thorough.cfg"), ("model_reconf", "ExitPolicy_reconf_thorough.cfg")])
+                 ("model_history", "ExitPolicy_hist_thorough.cfg"), ("model_reconf", "ExitPolicy_reconf_thorough.cfg"),
+                 ("model_memo", "ExitPolicy_memo_thorough.cfg")])
         with ThreadPoolExecutor(max_workers=4 if quick else 3) as ex:     # (thorough models are memory hungry)
             fmods = [(tag, cfg, ex.submit(run_tlc, "ExitPolicy.tla", cfg, timeout=3000)) for tag, cfg in mods]
             fctl = [(cfg, inv, ex.submit(run_tlc, "ExitPolicy.tla", cfg, coverage=False, workers=2)) for cfg, inv in ctl]
@@ -1460,7 +1677,8 @@ def model_part_safe(tier):
                 if not r.ok:
                     raise MachineryError("ExitPolicy %s: TLC reports %s on the specification itself" % (cfg, r.violated))
                 acts = ("DataFromTunnel", "TransportReady", "ResolveDone", "OutsideDatagram", "Close")
-                for act in acts + (("SetFlags", "SignedMessage") if tag == "model_reconf" else ()):
+                for act in acts + (("SetFlags", "SignedMessage") if tag == "model_reconf" else ()) + \
+                        (("SetFlags",) if tag == "model_memo" else ()):
                     if r.coverage.get(act, (0, 0))[1] == 0:
                         raise MachineryError("ExitPolicy.tla: action %s is never taken (vacuous model)" % act)
                 models.append((tag, r))
